@@ -12,6 +12,9 @@ TRUSTED = {
     "tsk_memcpy/tsk_memmove/tsk_memset/tsk_memcmp": "element-wise semantics on typed regions; overlap of memcpy operands not checked",
     "tsk_isfinite/tsk_isnan/tsk_is_unknown_time": "exact on the (kind,value) model of doubles",
     "fprintf/printf": "no effect (I/O not modelled)",
+    "fread/feof": "abstract byte stream: fread delivers min(nmemb, remaining div size) complete items and advances; "
+                  "a short count means end of file (I/O errors other than EOF are not modelled)",
+    "memcpy of 2/4/8 bytes from a byte buffer into an integer": "value = le_k(bytes, offset), an uninterpreted decoding",
 }
 
 SIZE_MAX = (1 << 64) - 1
@@ -156,6 +159,22 @@ def b_memcpy(ex, st, n, argnodes, t, w):
         ex.type_region(dp, sp.region.elem)
     if sp.region.elem is None and dp.region.elem is not None:
         ex.type_region(sp, dp.region.elem)
+    if dp.region.elem is not None and sp.region.elem is not None and dp.region.elem.kind == "int" \
+            and sp.region.elem.kind == "int" and ex.sizeof(sp.region.elem) == 1 and ex.sizeof(dp.region.elem) > 1 \
+            and not dp.prefix:
+        # decoding a little-endian integer out of a byte buffer: value = le_k(bytes, offset)
+        k_ = ex.sizeof(dp.region.elem)
+        ex.oblige(st, "BOUNDS", nb.v == k_, w, name="BOUNDS(memcpy-decode-size)@%s" % w)
+        _range_ok(ex, st, sp, nb.v, w, "src")
+        ex.check_access(st, dp, w)
+        sa = st.array(sp.region, sp.prefix, sp.region.elem)
+        val = le_fn(k_)(sa, sp.off)
+        st.assume(in_range(val, dp.region.elem))
+        da = st.array(dp.region, "", dp.region.elem)
+        if ex.written_log is not None:
+            ex.written_log.add((dp.region, "", "int"))
+        st.set_array(dp.region, "", z3.Store(da, dp.off, val))
+        return Val(t, dp)
     cnt, sz = _elem_count(ex, st, dp, nb.v, w)
     cnt2, sz2 = _elem_count(ex, st, sp, nb.v, w)
     if sz != sz2:
@@ -264,6 +283,117 @@ def b_memcmp(ex, st, n, argnodes, t, w):
     return Val(T_INT, r)
 
 
+# ---- abstract byte stream model of FILE* (C10: truncated / corrupted files) ---------------------------------
+def file_model(ex, st, fp):
+    """(content array, total length, current position, eof flag) of the stream fp points to"""
+    if fp.region is None:
+        raise Unsupported("NULL FILE*")
+    rid = fp.region.rid
+    key = ("file", rid)
+    if key not in ex.file_consts:
+        F = z3.Const("filebytes@%d" % rid, z3.ArraySort(I, I))
+        m = z3.Int("filelen@%d" % rid)
+        p0 = z3.Int("filepos0@%d" % rid)
+        ex.len_facts.append(z3.And(m >= 0, p0 >= 0, p0 <= m))
+        ex.file_consts[key] = (F, m, p0)
+    F, m, p0 = ex.file_consts[key]
+    cur = st.ghost.get(key)
+    if cur is None:
+        cur = {"pos": p0, "eof": z3.BoolVal(False)}
+        st.ghost[key] = cur
+    return F, m, cur
+
+
+def b_fread(ex, st, n, argnodes, t, w):
+    buf, size, nmemb, fp = _args(ex, st, argnodes)
+    F, m, cur = file_model(ex, st, fp.v)
+    bp = buf.v
+    total = size.v * nmemb.v
+    if bp.region is None:
+        ex.oblige(st, "NONNULL", z3.BoolVal(False), w)
+        raise PathEnd()
+    if bp.region.elem is None:
+        ex.type_region(bp, parse_type("char"))
+    esz = ex.sizeof(bp.region.elem)
+    if esz != 1:
+        raise Unsupported("fread into non-byte buffer")
+    _range_ok(ex, st, bp, total, w, "fread-buffer")
+    avail = m - cur["pos"]
+    items = ex.fresh("fread_items")
+    nm_ = z3.simplify(nmemb.v)
+    sz_ = z3.simplify(size.v)
+    # number of complete items delivered: min(nmemb, avail div size)  (no I/O errors: short count <=> EOF)
+    if z3.is_int_value(nm_) and nm_.as_long() == 1:
+        st.assume(items == z3.If(z3.And(size.v > 0, size.v <= avail), 1, 0))
+        got = z3.If(items == 1, size.v, 0)
+    elif z3.is_int_value(sz_) and sz_.as_long() == 1:
+        st.assume(items == z3.If(nmemb.v <= avail, nmemb.v, avail))
+        got = items
+    else:
+        st.assume(z3.And(items >= 0, items <= nmemb.v,
+                         z3.If(size.v == 0, items == 0,
+                               z3.And(items * size.v <= avail,
+                                      z3.Or(items == nmemb.v, (items + 1) * size.v > avail)))))
+        got = items * size.v
+    arr = st.array(bp.region, bp.prefix, bp.region.elem)
+    na = ex.fresh("%s.fread" % bp.region.name, z3.ArraySort(I, I))
+    i = z3.Int("i!f")
+    # bytes are signed chars in the model; the file holds 0..255
+    def as_char(b):
+        return z3.If(b >= 128, b - 256, b) if bp.region.elem.signed else b
+    st.assume(z3.ForAll([i], na[i] == z3.If(z3.And(i >= bp.off, i < bp.off + got),
+                                            as_char(F[cur["pos"] + (i - bp.off)]), arr[i])))
+    st.assume(z3.ForAll([i], z3.And(F[i] >= 0, F[i] <= 255)))
+    if ex.written_log is not None:
+        ex.written_log.add((bp.region, bp.prefix, "int"))
+    st.set_array(bp.region, bp.prefix, na)
+    newcur = {"pos": z3.simplify(cur["pos"] + got), "eof": z3.Or(cur["eof"], items < nmemb.v)}
+    st.ghost = dict(st.ghost)
+    st.ghost[("file", fp.v.region.rid)] = newcur
+    return Val(t, items)
+
+
+def b_feof(ex, st, n, argnodes, t, w):
+    fp, = _args(ex, st, argnodes)
+    F, m, cur = file_model(ex, st, fp.v)
+    return ex.from_bool(cur["eof"])
+
+
+def b_ferror(ex, st, n, argnodes, t, w):
+    _args(ex, st, argnodes)
+    return Val(T_INT, z3.IntVal(0))
+
+
+def b_errno_location(ex, st, n, argnodes, t, w):
+    if getattr(ex, "_errno_region", None) is None:
+        ex._errno_region = Region("errno", T_INT, z3.IntVal(1))
+    return Val(t, Ptr(ex._errno_region))
+
+
+def b_strncmp(ex, st, n, argnodes, t, w):
+    a, b, cnt = _args(ex, st, argnodes)
+    ap, bp = a.v, b.v
+    ex.check_access(st, ap, w)
+    ex.check_access(st, bp, w)
+    r = ex.fresh("strncmp")
+    st.assume(in_range(r, T_INT))
+    aa = st.array(ap.region, ap.prefix, parse_type("char"))
+    ba = st.array(bp.region, bp.prefix, parse_type("char"))
+    i = z3.Int("i!n")
+    # strings without an embedded NUL in the first cnt bytes (the magic constant): equality of the prefixes
+    st.assume((r == 0) == z3.ForAll([i], z3.Implies(z3.And(i >= 0, i < cnt.v), aa[ap.off + i] == ba[bp.off + i])))
+    return Val(T_INT, r)
+
+
+_le = {}
+
+
+def le_fn(k):
+    if k not in _le:
+        _le[k] = z3.Function("le%d" % k, z3.ArraySort(I, I), I, I)
+    return _le[k]
+
+
 def b_strlen(ex, st, n, argnodes, t, w):
     a, = _args(ex, st, argnodes)
     p = a.v
@@ -299,5 +429,6 @@ TABLE = {
     "tsk_memcpy": b_memcpy, "memcpy": b_memcpy, "tsk_memmove": b_memcpy, "memmove": b_memcpy,
     "tsk_memset": b_memset, "memset": b_memset,
     "tsk_memcmp": b_memcmp, "memcmp": b_memcmp,
-    "strlen": b_strlen,
+    "strlen": b_strlen, "fread": b_fread, "feof": b_feof, "ferror": b_ferror,
+    "__errno_location": b_errno_location, "strncmp": b_strncmp,
 }
